@@ -336,6 +336,19 @@ class Analyzer:
                 env.setdefault("flags", set()).add(name)
                 R["normal"] = [s.copy(memo=tuple(sorted([(c, v) for c, v in s.memo if c != name] + [(name, bool(init["v"]))]))) for s in states]
                 return R
+            if name and init is not None and init.get("k") == "mcall" and init["m"] == "len" and not init["args"]:
+                # `let mark = buf.len();` .. `buf.truncate(mark)`: a roll-back point of a text buffer
+                out = []
+                for s in states:
+                    tgt = self._target(init["recv"], s)
+                    if tgt in s.bufs:
+                        s2 = s.copy()
+                        s2.bufs["$snap:%s:%s" % (name, tgt)] = s.eff(tgt)
+                        out.append(s2)
+                    else:
+                        out.append(s)
+                R["normal"] = out
+                return R
             if name and _is_string_new(init):
                 out = []
                 for s in states:
@@ -575,6 +588,34 @@ class Analyzer:
                         self.nontrivial.add(self.cur.qual)
                     R["normal"] = [scan(s, v, self._target(n["recv"], s)) for s in states]
                     return R
+            if n["m"] == "insert_str" and len(n["args"]) == 2 and sir.strip_ref(n["args"][1]).get("k") == "lit" and isinstance(sir.strip_ref(n["args"][1]).get("v"), str):
+                # text put in front of what the buffer holds (`ret.insert_str(0, "Z(")`, closed by a later `)`): for the balance of
+                # the finished text only the multiset and nesting of brackets matter, so it is scanned like an append
+                v = sir.strip_ref(n["args"][1])["v"]
+                if re.search(r"[()\[\]{}]", v):
+                    self.nontrivial.add(self.cur.qual)
+                outs = []
+                for s in states:
+                    s2 = scan(s, v, self._target(n["recv"], s))
+                    tg = self._target(n["recv"], s)
+                    e_ = s2.bufs[tg]
+                    s2.bufs[tg] = (e_[0], e_[1], e_[2], "x")   # the old content follows the inserted prefix
+                    outs.append(s2)
+                R["normal"] = outs
+                return R
+            if n["m"] == "truncate" and len(n["args"]) == 1 and _simple_name(n["args"][0]):
+                out = []
+                for s in states:
+                    tgt = self._target(n["recv"], s)
+                    key_ = "$snap:%s:%s" % (_simple_name(n["args"][0]), tgt)
+                    if key_ in s.bufs:
+                        s2 = s.copy()
+                        s2.bufs[tgt] = s.bufs[key_]
+                        out.append(s2)
+                    else:
+                        out.append(s)
+                R["normal"] = out
+                return R
             if n["m"] == "push_str" and n["args"]:
                 nm = _simple_name(n["args"][0])
                 if nm:
